@@ -63,7 +63,7 @@ def main(tier, seed, replay=None):
         for vec in all_parent_vectors(n):
             trees.append(vec)
     n_exh = len(trees)
-    for _ in range(40 if tier == "quick" else 300):
+    for _ in range(40 if tier == "quick" else 1000):
         n = int(rs.randint(5, 8))
         order = list(rs.permutation(n)); tree = [-1] * n
         for k in range(1, n):
